@@ -61,6 +61,7 @@ AddConst(S, k) ==
     LET cs == Cur(S).consts
         hit == {i \in 1..Len(cs) : k.k # "fn" /\ cs[i] = k}
     IN IF hit # {} THEN [s |-> S, i |-> (CHOOSE i \in hit : TRUE) - 1]
+       ELSE IF Len(cs) >= 65536 THEN [s |-> Err(S), i |-> 0]                                       \* "Too many constants in one chunk."
        ELSE [s |-> SetCur(S, [Cur(S) EXCEPT !.consts = Append(@, k)]), i |-> Len(cs)]
 EmitConstOp(S, n, k, ln) == LET a == AddConst(S, k) IN Emit(a.s, <<Op(n)>> \o U16(a.i), ln)
 
@@ -102,9 +103,11 @@ AddUpvalue(c, index, islocal) ==
     ELSE [c |-> [c EXCEPT !.upv = Append(@, [index |-> index, islocal |-> islocal])], i |-> Len(c.upv)]
 
 RECURSIVE Thread(_, _, _, _)
-Thread(cs, comp, first, index) ==       \* add_upvalue in every compiler from `comp` to the innermost one
-    IF comp > Len(cs) THEN [cs |-> cs, i |-> index]
-    ELSE LET a == AddUpvalue(cs[comp], index, comp = first) IN Thread([cs EXCEPT ![comp] = a.c], comp + 1, first, a.i)
+Thread(cs, comp, first, index) ==       \* add_upvalue in every compiler from `comp` to the innermost one; at most 256 captures each
+    IF comp > Len(cs) THEN [cs |-> cs, i |-> index, over |-> FALSE]
+    ELSE LET a == AddUpvalue(cs[comp], index, comp = first) IN
+         IF Len(a.c.upv) > 256 THEN [cs |-> cs, i |-> 0, over |-> TRUE]
+         ELSE Thread([cs EXCEPT ![comp] = a.c], comp + 1, first, a.i)
 
 ResolveUpvalue(S, x) ==
     LET n == Len(S.cs)
@@ -114,7 +117,8 @@ ResolveUpvalue(S, x) ==
                 slot == ResolveLocal(S.cs[e], x).i
                 cs1 == [S.cs EXCEPT ![e].locals[slot + 1].cap = TRUE]
                 t == Thread(cs1, e + 1, e + 1, slot)
-            IN [s |-> [S EXCEPT !.cs = t.cs], found |-> TRUE, i |-> t.i]
+            IN IF t.over THEN [s |-> Err([S EXCEPT !.cs = cs1]), found |-> FALSE, i |-> 0]      \* "Too many closure variables in function."
+               ELSE [s |-> [S EXCEPT !.cs = t.cs], found |-> TRUE, i |-> t.i]
 
 NamedVar(S, x) ==
     LET r == ResolveLocal(Cur(S), x) IN
